@@ -65,6 +65,8 @@ NextB(h) == CallsB
 
 \* ------------------------------------------------------------------ slice C
 ConfigsC == {CfgRec(dd, 2, ig, "none", FALSE, FALSE) : dd \in DDs, ig \in BOOLEAN}
+\* depth 3 (thorough): without the single configured set [[d1]] (it has depth 2 in the quick slice and is in B, D)
+ConfigsCt == {c \in ConfigsC : c.dd # DD1}
 CallsC == {CFG("split"), CFG("ed_d2"), CFG("ed_two"), CFG("ed_empty"), CFG("ed_unit"), STR("d1", "plain"), STR("d2", "nasty")}
           \cup {MET("s", <<"F">>, "std", NoDims, "nometric"), MET("s", <<"U">>, "none", NoDims, "hires"),
                 MET("s", <<"U">>, "custom", K1V1, "nometric"), MET("s", <<"F">>, "none", K1V2, "hires")}
